@@ -62,6 +62,43 @@ pub struct Case {
     pub gen:   &'static str,
     pub one_call: bool,
     pub real_tc:  bool,
+    /// nesting depth the program builds through one repeated instruction (0: not a deep-chain program)
+    pub deep:     usize,
+}
+
+/// Known finding: recursion over value trees (size, hashing, transformation, drop) is as deep as the value,
+/// and the only bound on a value's depth is the configured size limit; from roughly 20 000 levels an
+/// 8 MiB stack overflows. Cases of that class are not run (each would kill the shard process).
+pub const DEEP_CLASS: usize = 10_000;
+pub const DEEP_SIGNATURE: &str =
+    "native stack overflow on a value nested 10000 or more levels deep (value size limit of 10000 or more)";
+
+/// one source, one instruction (or short group) repeated `n` times on top of it, one sink
+pub fn g_deep_chain(ch: &mut Chooser) -> (Vec<u8>, usize) {
+    let source: &[u8] = *ch.pick(&[&[0x33u8][..], &[0x34], &[0x5f, 0x35], &[0x30], &[0x5f, 0x54]]);
+    let unit: &[u8] = *ch.pick(&[
+        &[0x15u8][..],    // ISZERO
+        &[0x19],          // NOT
+        &[0x31],          // BALANCE
+        &[0x3b],          // EXTCODESIZE
+        &[0x3f],          // EXTCODEHASH
+        &[0x40],          // BLOCKHASH
+        &[0x35],          // CALLDATALOAD
+        &[0x51],          // MLOAD
+        &[0x54],          // SLOAD
+        &[0x60, 0x01, 0x01], // PUSH1 1 ADD
+        &[0x60, 0x02, 0x0a], // PUSH1 2 EXP
+        &[0x5f, 0x1b],       // PUSH0 SHL
+    ]);
+    let sink: &[u8] = *ch.pick(&[&[0x5fu8, 0x55, 0x00][..], &[0x5f, 0x52, 0x00], &[0x50, 0x00], &[0x5f, 0x5f, 0xa1, 0x00], &[0x5f, 0xf3]]);
+    let room = (24_576 - source.len() - sink.len()) / unit.len();
+    let n = (*ch.pick(&[60usize, 249, 250, 251, 1_000, 4_000, 9_000, 12_000, 20_000, 24_576])).min(room);
+    let mut code = source.to_vec();
+    for _ in 0..n {
+        code.extend_from_slice(unit);
+    }
+    code.extend_from_slice(sink);
+    (code, n)
 }
 
 /// hostile storage idioms: mask/shift/multiply/hash patterns around storage with constants at
@@ -315,7 +352,25 @@ pub fn gen_case(ch: &mut Chooser, tier: Tier) -> Case {
     let cfg = VmCfg::generate(ch);
     let one_call = ch.chance(1, 4);
     let real_tc = ch.chance(1, 8);
-    let (gen, bytes): (&'static str, Vec<u8>) = match ch.below(20) {
+    let mut deep = 0usize;
+    let mut cfg = cfg;
+    let (gen, bytes): (&'static str, Vec<u8>) = match ch.below(21) {
+        20 => {
+            let (code, n) = g_deep_chain(ch);
+            deep = n;
+            // the size limit is what bounds the depth of a value: also limits far above the default.
+            // Cost grows with depth x limit, so far larger limits meet either short chains or the chains
+            // of the known class (which are counted and not run); chains of storage loads are quadratic
+            // in more than the depth and stay under the generated limits
+            let by_sload = code.len() > 3 && code[code.len() / 2] == 0x54 && code[code.len() / 2 + 1] == 0x54;
+            if ch.chance(1, 3) && !by_sload {
+                let limit = *ch.pick(&[2_000usize, 9_000, 30_000, 1_000_000]);
+                if n <= 2_000 || (n >= DEEP_CLASS && limit >= DEEP_CLASS) {
+                    cfg.value_size = limit;
+                }
+            }
+            ("deep-chain", code)
+        }
         0 | 1 => ("raw", gen::g_raw(ch)),
         2..=7 => ("struct", gen::g_struct(ch, 60).code()),
         8 | 9 => {
@@ -367,16 +422,26 @@ pub fn gen_case(ch: &mut Chooser, tier: Tier) -> Case {
         gen,
         one_call,
         real_tc,
+        deep,
     }
 }
 
 fn case_json(c: &Case) -> Value {
-    json!({ "bytes": hex::encode(&c.bytes), "config": c.cfg, "one_call": c.one_call, "real_tc_config": c.real_tc, "generator": c.gen })
+    json!({ "bytes": hex::encode(&c.bytes), "config": c.cfg, "one_call": c.one_call, "real_tc_config": c.real_tc, "generator": c.gen, "deep": c.deep })
 }
 
 const POLL_BUDGET: u64 = 4_000_000;
 
 pub fn check_case(c: &Case, acc: &mut Acc) -> CaseResult {
+    if c.deep >= DEEP_CLASS && c.cfg.value_size >= DEEP_CLASS {
+        acc.label("deep-chain:known-class-not-run");
+        return CaseResult::Fail(Violation::new(
+            DEEP_SIGNATURE,
+            format!("{} levels under a value size limit of {} (not run)", c.deep, c.cfg.value_size),
+            case_json(c),
+        ));
+    }
+    acc.label_if(c.deep >= 1_000, "deep-chain>=1000");
     let kinds = classify(&c.bytes);
     let has_storage = kinds
         .iter()
@@ -460,6 +525,7 @@ pub fn case_from_json(case: &Value) -> Case {
         gen:      "replay",
         one_call: case["one_call"].as_bool().unwrap_or(true),
         real_tc:  case["real_tc_config"].as_bool().unwrap_or(true),
+        deep:     case["deep"].as_u64().unwrap_or(0) as usize,
     }
 }
 
